@@ -444,10 +444,12 @@ Proof. exact resize_batch_derivative. Qed.
 Print Assumptions C04_resize_derivative.
 
 (* ======================= ConcatenatedModel over arbitrary layers with optimisation flags (C04Het.v) ======================= *)
-(* setParameterVector / parameterVector skip frozen layers: the round trip is the identity, the length is numberOfParameters
+(* setParameterVector / parameterVector skip frozen layers (k_faithful: the optimised layers return the parameters they were given;
+   by definition for every modelled kind except RBFLayer, see C04_rbf_param_roundtrip): the round trip is the identity, the length is numberOfParameters
    (= the sum over the OPTIMISED layers), flags and layer kinds are untouched and every frozen layer keeps its parameters *)
 Theorem C04_het_param_roundtrip :
   forall (A : Type) (N : hnet A) (t : list A),
+    Forall (fun l => h_opt l = true -> k_faithful A (h_kind l)) N ->
     length t = hnet_np N ->
     hnet_params (hnet_set N t) = t /\
     length (hnet_params (hnet_set N t)) = hnet_np N /\
